@@ -4,7 +4,8 @@ CHECK = {
     "level": "exploration",
     "assumptions": [
         "a test case may pre-fill request fields 2-10 of ClientCompatRequest (unusual, but the schema and the loader accept it); client_compat.proto and docs/authoring_test_cases.md say these are populated by the runner, so the expansion must not depend on them",
-        "suites are well-formed in the sense of docs/authoring_test_cases.md: relevant_* lists without repeated values, unique non-empty test names, service and method given together or not at all, a stream type on every test",
+        "suites are well-formed in the sense of docs/authoring_test_cases.md: relevant_* lists without repeated values, unique non-empty test names, a stream type on every test",
+        "service / method: a test case naming exactly one of them may be refused (docs: 'must be specified together'); a field that is present but empty may be treated as omitted (defaults) or the suite refused - the documents do not say whether that counts as 'specified' - but a permutation never carries an empty service or method",
         "config cases never carry a connect_version_mode (true for every set parseConfig can produce in this tree), so connect_version_mode is outside the alphabet",
         "config cases with client certificates but without TLS are not inputs (client_compat.proto excludes them; the documents do not say what they would expand to)",
         "for a suite the documents call misconfigured (client certs without TLS, Connect GET without being restricted to Connect) and for two suites of one name, both a load error and the plain iff are accepted",
@@ -12,7 +13,7 @@ CHECK = {
     "manifest": {
         "engine": "ENUM",
         "technique": "bounded-exhaustive enumeration against a reference model",
-        "text": "Every suite of the directive space (3 modes x 8 protocol subsets x 8 version subsets x 4 codec subsets x 3 compression subsets x 16 relies-on combinations; quick: 4 version, 3 codec, 2 compression subsets) with 1-3 test cases over the five stream types (default and explicit service/method) is expanded by the real newTestCaseLibrary against the whole reduced universe of config cases, the sets parseConfig yields for the four shipped and six typical configs, and every singleton of a reduced universe, in all three run modes; two-suite loads whose twin differs in name and/or mode are added; every directive combination is also expanded with test-case sets whose requests pre-fill the runner-owned fields (9 templates over client_tls_creds incl. an empty message, server_tls_cert, http_version / protocol / codec / compression / message_receive_limit at low, middle and high values, so that each config case differs from some template in every field; two mixed test-case sets) against the whole reduced universe and the default config; in both tiers, suites that list two or three values on an axis (compressions {identity,gzip} in both orders, {gzip,br}, {identity,zstd}, {identity,gzip,zstd} x protocols {any, connect, connect+grpc, all three} x versions {any, 2, 1+2, all three} x codecs {any, json, proto+json} x 4 relies-on combinations x 3 modes; two test-case sets) are expanded against the whole reduced universe and every named config set, so that every axis is met both pinned (one listed value) and open with several listed values of which two, one or none occur in the config cases; in both tiers, pairs of suites with path-shaped names (suite names Echo, Echo/v2, Echo/v2/x, Alpha x test names ping, v2/ping, x/ping, v2/x/ping, ../Echo/ping, ../Echo/v2/ping; both suites pin every axis and rely on TLS so that no component separates suite name and test name, one or both leave TLS open, both fully open; same / different stream type) against the universe and the default config: the load is either refused or holds exactly one permutation per admitted (test, config case) pair, identically on five expansions; thorough adds, per template, a set carrying it on all five stream types, in the quick tier's directive combinations against the whole universe. Each result is compared with an independent model: the statement's iff per (test, config case), the documented name scheme (suite, open axes in order, test name), request fields (version, protocol, codec, compression, TLS / client-cert markers, default or given service+method, non-zero uniform receive limit), casesByServer as a partition keyed by (protocol, version, TLS, certs), allPermutations/filterGRPCImplTestCases = what the grpc-go peers support + marker component, unique names, and five repeated expansions (config cases re-ordered) being identical; for suites with pre-filled runner-owned fields the whole expansion (names, request fields incl. the content of the TLS markers and the receive limit, server groups) must equal the expansion of the same suite without them, i.e. markers and grouping are determined by the config case alone.",
+        "text": "Every suite of the directive space (3 modes x 8 protocol subsets x 8 version subsets x 4 codec subsets x 3 compression subsets x 16 relies-on combinations; quick: 4 version, 3 codec, 2 compression subsets) with 1-3 test cases over the five stream types (default and explicit service/method) is expanded by the real newTestCaseLibrary against the whole reduced universe of config cases, the sets parseConfig yields for the four shipped and six typical configs, and every singleton of a reduced universe, in all three run modes; two-suite loads whose twin differs in name and/or mode are added; every directive combination is also expanded with test-case sets whose requests pre-fill the runner-owned fields (9 templates over client_tls_creds incl. an empty message, server_tls_cert, http_version / protocol / codec / compression / message_receive_limit at low, middle and high values, so that each config case differs from some template in every field; two mixed test-case sets) against the whole reduced universe and the default config; in both tiers, suites that list two or three values on an axis (compressions {identity,gzip} in both orders, {gzip,br}, {identity,zstd}, {identity,gzip,zstd} x protocols {any, connect, connect+grpc, all three} x versions {any, 2, 1+2, all three} x codecs {any, json, proto+json} x 4 relies-on combinations x 3 modes; two test-case sets) are expanded against the whole reduced universe and every named config set, so that every axis is met both pinned (one listed value) and open with several listed values of which two, one or none occur in the config cases; in both tiers, pairs of suites with path-shaped names (suite names Echo, Echo/v2, Echo/v2/x, Alpha x test names ping, v2/ping, x/ping, v2/x/ping, ../Echo/ping, ../Echo/v2/ping; both suites pin every axis and rely on TLS so that no component separates suite name and test name, one or both leave TLS open, both fully open; same / different stream type) against the universe and the default config: the load is either refused or holds exactly one permutation per admitted (test, config case) pair, identically on five expansions; in both tiers, the request-level fields of the test-case template as an axis (phase G): use_get_http_method false / true x service x method each absent / present-but-empty / set (all nine combinations) on every stream type of the universe, also together with pre-filled protocol markers, x every relies-on combination, mode and protocol subset (versions and codecs unrestricted or pinned) against the whole universe and the default config - which permutations exist follows from the directives and the stream type alone, loadable sets kept apart from sets that may be refused; thorough adds, per template, a set carrying it on all five stream types, in the quick tier's directive combinations against the whole universe. Each result is compared with an independent model: the statement's iff per (test, config case), the documented name scheme (suite, open axes in order, test name), request fields (version, protocol, codec, compression, TLS / client-cert markers, default or given service+method, non-zero uniform receive limit), casesByServer as a partition keyed by (protocol, version, TLS, certs), allPermutations/filterGRPCImplTestCases = what the grpc-go peers support + marker component, unique names, and five repeated expansions (config cases re-ordered) being identical; for suites with pre-filled runner-owned fields the whole expansion (names, request fields incl. the content of the TLS markers and the receive limit, server groups) must equal the expansion of the same suite without them, i.e. markers and grouping are determined by the config case alone.",
         "note": "The model is written from suite.proto, client_compat.proto, docs/authoring_test_cases.md, docs/configuring_and_running_tests.md and testing/grpc-*-config.yaml. parseConfig is used only to produce realistic input sets. Raw request/response payload restrictions (parseTestSuites) and expected-response derivation are not part of this check (C02).",
         "design_ref": "DESIGN.md §2.2, §4 C07",
     },
